@@ -22,12 +22,18 @@ Oracle, per iteration and per descriptor object (statement clauses quoted):
     a discarded object; for an object closed WITHOUT discard no _read/_write may name it (C10/closed/<state of the object>/<poller>);
   * deliberate, narrow relaxation: for a descriptor whose peer has hung up or reset, `_disconnect` in place of the readiness events is
     accepted (Poll/EPoll report HUP, Select cannot); once a poller has reported `_disconnect` for it, it may stay silent about it (it
-    discards the descriptor itself).  Nothing else is relaxed;
+    discards the descriptor itself).  The relaxation stops at pending DATA: while the kernel (FIONREAD) reports unread bytes on a
+    descriptor that is registered for reading, `_read` must be fired and a `_disconnect` is a violation
+    (C10/unexpected/_disconnect/hung-up-but-data-pending/...), because that descriptor is "registered for reading and actually
+    readable"; only EOF / reset without data may be turned into a `_disconnect`.  Nothing else is relaxed;
   * "the three pollers are interchangeable": the final per-operation event sets of descriptors that are not hung up are compared
     between the pollers (C10/pollers-disagree/...).  The component-level clause (same connect/read/disconnect stream) is decided by C12.
 """
+import fcntl
 import select as _rselect      # the REAL module (circuits.core.pollers sees a shim)
 import socket as _socket
+import struct
+import termios
 
 from simcore import world, simnet
 from simcore.world import W
@@ -55,9 +61,11 @@ STUBBED = ['select module inside circuits.core.pollers -> zero-timeout shim that
 ASSUMPTIONS = ['one source component per descriptor at a time and no duplicate add of a role (the statement does not define either)',
                'an expected event may be one loop iteration late (never more); EINTR iterations report nothing',
                'for a descriptor closed without discard a `_disconnect` naming it is accepted (Poll notices POLLNVAL that way); _read/_write are not',
-               'after the peer hung up: `_disconnect` instead of readiness is accepted, and silence after a reported `_disconnect`',
+               'after the peer hung up: `_disconnect` instead of readiness is accepted, and silence after a reported `_disconnect` - except while unread data is pending '
+               'on a descriptor registered for reading (then _read is demanded and _disconnect forbidden); a descriptor registered ONLY for writing may be '
+               'disconnected on hang-up even with unread input (the poller was not asked about its readability)',
                '`_error` events are not judged']
-PROBES = ['expected-read', 'expected-write', 'not-writable-buffer-full', 'remove-one-role-other-stays', 're-add-after-discard', 'close-without-discard',
+PROBES = ['expected-read', 'expected-write', 'hup-with-unread-data', 'peer-writes-then-closes', 'not-writable-buffer-full', 'remove-one-role-other-stays', 're-add-after-discard', 'close-without-discard',
           'fault:fd_reuse', 'fd-reuse-of-registered-closed', 'fault:peer_close', 'fault:poll_eintr', 'hup-disconnect-accepted', 'late-discard',
           'grace-iteration', 'pollers-compared', 'cfg:Select', 'cfg:Poll', 'cfg:EPoll']
 TIERS = {
@@ -69,8 +77,8 @@ POLLERS = [Select, Poll, EPoll]
 NSLOTS = 5
 NSRC = 3
 OPS = ['addReader', 'addWriter', 'removeReader', 'removeWriter', 'discard', 'close', 'discard_close', 'peer_write', 'drain', 'fill', 'peer_drain',
-       'peer_close', 'peer_shut', 'late_discard', 'idle', 'peer_reset', 'reopen']
-WEIGHTS = [8, 7, 4, 4, 3, 3, 2, 6, 3, 2, 2, 2, 1, 2, 2, 1, 3]
+       'peer_close', 'peer_shut', 'late_discard', 'idle', 'peer_reset', 'reopen', 'peer_write_close']
+WEIGHTS = [8, 7, 4, 4, 3, 3, 2, 6, 3, 2, 2, 2, 1, 2, 2, 1, 3, 3]
 AVOID_CLOSE = 'closed-without-discard'      # marker inside keys of findings triggered by closing a registered descriptor without discard
 
 
@@ -94,6 +102,15 @@ class EintrPolicy(simnet.NoFaults):
             self.fired = True
             return True
         return False
+
+
+def unread_bytes(sock):
+    """Bytes waiting in the descriptor's receive queue, asked from the kernel with FIONREAD.  (Deliberately not recv(MSG_PEEK): on an empty
+    queue that would consume a pending ECONNRESET and so change what the pollers see.)"""
+    try:
+        return struct.unpack('i', fcntl.ioctl(sock.fileno(), termios.FIONREAD, b'\0\0\0\0'))[0]
+    except OSError:
+        return 0
 
 
 class Src(Component):
@@ -159,7 +176,7 @@ def run_history(ctx, plan, P, avoid_close):
         a.setblocking(False)
         b.setblocking(False)
         a.setsockopt(_socket.SOL_SOCKET, _socket.SO_SNDBUF, 4608)
-        d = dict(ord=len(descs), a=a, b=b, no=a.fileno(), reader=False, writer=False, src=None, hup=False, shut=False, disc_reported=False, state='live',
+        d = dict(ord=len(descs), a=a, b=b, no=a.fileno(), reader=False, writer=False, src=None, hup=False, shut=False, disc_reported=False, pending=0, state='live',
                  lastop='open', was_registered=False, discarded=False)
         descs.append(d)
         slots[i] = d
@@ -277,6 +294,19 @@ def run_history(ctx, plan, P, avoid_close):
                 except OSError:
                     pass
                 tr('peer of %s drains', dname(d))
+        elif kind == 'peer_write_close':
+            if not d['hup']:
+                n = 1 + si * 5000
+                try:
+                    if not d['shut']:
+                        b.send(b'z' * n)
+                except OSError:
+                    n = 0
+                b.close()
+                d['hup'] = True
+                ctx.stat('fault:peer_close')
+                ctx.stat('peer-writes-then-closes')
+                tr('peer of %s writes %d bytes and closes before the next iteration', dname(d), n)
         elif kind in ('peer_close', 'peer_reset'):
             if not d['hup']:
                 if kind == 'peer_close':
@@ -312,7 +342,10 @@ def run_history(ctx, plan, P, avoid_close):
             if d['writer'] and not w:
                 ctx.stat('not-writable-buffer-full')
             exp[d['ord']] = e
-            ctx.state((name, d['reader'], d['writer'], bool(r), bool(w), d['hup'], d['lastop']))
+            d['pending'] = unread_bytes(d['a']) if d['hup'] else 0
+            if d['hup'] and d['reader'] and d['pending']:
+                ctx.stat('hup-with-unread-data')
+            ctx.state((name, d['reader'], d['writer'], bool(r), bool(w), d['hup'], bool(d['pending']), d['lastop']))
         return exp
 
     def observe(no):
@@ -347,6 +380,10 @@ def run_history(ctx, plan, P, avoid_close):
                 if evname == '_disconnect':
                     if not d['hup']:
                         fail('C10/unexpected/_disconnect/peer-not-hung-up/%s' % name, '_disconnect fired for %s whose peer is still there' % dname(d))
+                    if d['reader'] and d['pending']:
+                        # the relaxation ends where data is pending: registered for reading AND readable (unread bytes, not just EOF) => _read, not a goodbye
+                        fail('C10/unexpected/_disconnect/hung-up-but-data-pending/%s' % name, '_disconnect fired for %s (and the poller forgets it) although it is registered for '
+                             'reading and %d unread bytes are still pending in the kernel: the peer has hung up, but the descriptor is still readable' % (dname(d), d['pending']))
                     d['disc_reported'] = True
                     ctx.stat('hup-disconnect-accepted')
                 elif evname not in exp.get(d['ord'], ()):
@@ -371,7 +408,11 @@ def run_history(ctx, plan, P, avoid_close):
                     continue
                 g, e = set(got.get(d['ord'], ())), exp[d['ord']]
                 if d['hup'] and ('_disconnect' in g or d['disc_reported']):
-                    continue        # relaxation: _disconnect in place of readiness; silence after a reported _disconnect
+                    # relaxation: _disconnect in place of readiness and silence after a reported _disconnect - but never about unread DATA of a
+                    # descriptor registered for reading: "a read readiness event iff registered for reading and actually readable"
+                    if d['reader'] and d['pending'] and '_read' in e and '_read' not in g:
+                        missing.append((d, '_read'))
+                    continue
                 missing += [(d, x) for x in sorted(e - g)]
             if not missing:
                 break
